@@ -65,6 +65,26 @@ def mutate(rng, sql, dialect):
     return ''.join(out) if changed else None
 
 
+def gen_create_table(rng):
+    """CREATE TABLE with every combination of the column options the grammar allows (type length, DEFAULT, [NOT] NULL, PRIMARY KEY)"""
+    cols = rng.sample(['id', 'name', 'created_at', 'qty', 'note'], rng.randint(1, 3))
+    defs = []
+    for c in cols:
+        t = rng.choice(['int', 'varchar', 'timestamp', 'text', 'float'])
+        d = f'{c} {t}' + rng.choice(['', '', '(5)'])
+        k = rng.random()
+        if k < 0.4:
+            d += ' default ' + rng.choice(['current_timestamp', 'x', 'zero'])
+        elif k < 0.5 and '(' not in d:
+            d += ' primary key'
+        d += rng.choice(['', '', ' not null', ' null'])
+        defs.append(d)
+    if rng.random() < 0.3:
+        defs.append('primary key (' + ', '.join(rng.sample(cols, rng.randint(1, len(cols)))) + ')')
+    head = rng.choice(['create table', 'create table', 'create or replace table', 'create table if not exists'])
+    return f'{head} {rng.choice(["t", "db.t", "`my db`.t"])} ({", ".join(defs)})'
+
+
 def first_diff(a, b):
     la, lb = a.split('\n'), b.split('\n')
     for x, y in zip(la, lb):
@@ -180,6 +200,7 @@ def run(tier, seed, replay=None):
             n = 150 if tier == 'quick' else 2000
             texts += [c06.gen_statement(rng) for _ in range(n)] + [c08.gen_statement(rng, c08.ALL_FEATURES) for _ in range(n)]
             texts += [plangen.gen_statement(rng, plangen.ALL_FEATURES)[0] for _ in range(n)]
+            texts += [gen_create_table(rng) for _ in range(n // 2)]
         if d == 'mindsdb' and not replay:
             texts += RAW_SECTIONS
         muts = []
@@ -272,6 +293,32 @@ def run(tier, seed, replay=None):
         nrep += 1
         R.violation({'dialect': key[0], 'sql': s, 'printed': s1, 'printed_again_or_error': extra, 'failure': key[1], 'class': list(key[2:]),
                      'recognised_causes': cs, 'what': 'parse -> print -> parse does not give the same tree / string'})
+    # ---------------- sentences derived from the grammars themselves (every statement kind, every production)
+    if not replay or 'grammar_sentence' in rp:
+        import c01g
+        if replay:
+            gk, gd = c01g.failure_key(rp['grammar_sentence'], rp.get('dialect', 'mindsdb'))
+            gstats, gfails = {}, ({gk: gd} if isinstance(gk, tuple) else {})
+        else:
+            try:
+                gstats, gfails = c01g.explore(rng, tier)
+            except Exception as e:
+                gstats, gfails = {'error': f'{type(e).__name__}: {e}'}, {}
+                R.violation({'what': f'sentences could not be derived from the grammar: {type(e).__name__}: {e}', 'theorem': 'C01 grammar-derived corpus'}, nofail=True)
+        listed = {tuple(x) for f in findings if f['classifier'].get('kind') == 'grammar_roundtrip' for x in f['classifier']['classes']}
+        gfd = [f for f in findings if f['classifier'].get('kind') == 'grammar_roundtrip']
+        ng = 0
+        for key, det in gfails.items():
+            if (key[0], key[2]) in listed:
+                R.known_finding(f'{gfd[0]["id"]}: {gfd[0]["what"]}')
+                continue
+            ng += 1
+            if ng <= 4:
+                R.violation(dict(det, dialect=key[0], grammar_sentence=det.get('sql'), failure=list(key),
+                                 what='a sentence derived from the grammar is accepted but does not survive print -> parse (statement class not among the listed ones)'))
+        stats['grammar_sentences'] = gstats
+        R.obligation(f'round trip of grammar-derived sentences outside the listed statement classes '
+                     f'({sum(v.get("accepted", 0) for v in gstats.values() if isinstance(v, dict))} accepted sentences)', ng == 0)
     R.obligation('round trip on the corpus (except listed findings)', not any(not nf for _, nf in R.violations))
     R.cov['evaluations'] = stats['statements'] + len(rows)
     R.cov['distinct_nontrivial'] = stats['statements']
